@@ -23,8 +23,8 @@ VERIF = os.path.dirname(HERE)
 
 def one(seed, repo):
     d = os.path.join(VERIF, 'seeded', seed)
-    meta = json.load(open(os.path.join(d, 'meta.json')))
-    prop = meta['property']
+    mp = os.path.join(d, 'meta.json')
+    prop = json.load(open(mp))['property'] if os.path.exists(mp) else seed[:3]
     scratch = tempfile.mkdtemp(prefix='capy-seed.')
     try:
         subprocess.run(['rsync', '-a', '--exclude', 'target', '--exclude', '.git', '--exclude', 'seed_out',
